@@ -17,9 +17,13 @@ import (
 	"flag"
 	"fmt"
 	"os"
+	"runtime"
 	"sort"
 	"strings"
+	"sync/atomic"
 	"time"
+
+	"github.com/openconfig/gnmi/coalesce"
 
 	log "github.com/golang/glog"
 	"github.com/openconfig/gnmi/cache"
@@ -47,7 +51,10 @@ type GPath struct {
 	Element []string `json:"el,omitempty"`
 }
 
-// Op is one step.  K: add sub rem upd once notif nodes.
+// Op is one step.  K: add sub rem upd once notif nodes conc.
+// conc: Update (Once=false) or UpdateOnce (Once=true) of P while a trigger
+// client registered at Tq for this step only starts, inside its callback, a
+// goroutine that calls the removal closures Hs.
 type Op struct {
 	K    string     `json:"k"`
 	C    int        `json:"c,omitempty"`
@@ -58,6 +65,9 @@ type Op struct {
 	Ents []*GPath   `json:"ents,omitempty"`
 	Ups  []*GPath   `json:"ups,omitempty"`
 	Dels []*GPath   `json:"dels,omitempty"`
+	Once bool       `json:"once,omitempty"`
+	Tq   []string   `json:"tq,omitempty"`
+	Hs   []int      `json:"hs,omitempty"`
 }
 
 // Offer is (client, number of calls).
@@ -68,7 +78,10 @@ type Offer struct {
 
 // Obs is the projected observation of one step.
 type Obs struct {
-	Kind   string  `json:"kind"` // done offers notif nodes panic
+	Kind   string  `json:"kind"` // done offers notif nodes conc panic
+	Trig   bool    `json:"trig,omitempty"`  // conc: the trigger was called
+	Early  bool    `json:"early,omitempty"` // conc: the removals returned while the update was in progress
+	Late   []int   `json:"late,omitempty"`  // conc: clients first called after the removals had returned
 	Offers []Offer `json:"offers,omitempty"`
 	Hits   []int   `json:"hits,omitempty"`
 	N      int     `json:"n,omitempty"`
@@ -108,11 +121,107 @@ type subInfo struct {
 	live   bool
 }
 
+// concState is the bookkeeping of one conc step, read by the coalesce hook.
+type concState struct {
+	done  int32 // set once every removal closure has returned
+	vict  [maxClients]bool // clients whose removal closures are being called
+	seen  [maxClients]bool
+	late  []int
+	trig  bool
+	early bool
+}
+
+// curWorld is the world of the case being run (cases run one at a time).
+var curWorld atomic.Pointer[world]
+
+// queueHook is installed as coalesce.VerifHook: after every Queue.Insert it
+// finds the client that has just been called for the first time in this conc
+// step and notes whether the removals had already returned.
+func queueHook(point string) {
+	if point != "insert:inserted" {
+		return
+	}
+	w := curWorld.Load()
+	if w == nil || w.conc == nil {
+		return
+	}
+	cs := w.conc
+	for i, c := range w.clients {
+		if !cs.seen[i] && c.Q.Len() > 0 {
+			cs.seen[i] = true
+			if cs.vict[i] && atomic.LoadInt32(&cs.done) == 1 {
+				cs.late = append(cs.late, i)
+			}
+		}
+	}
+}
+
+// trigger is an ordinary slow subscriber.
+type trigger struct {
+	w    *world
+	hs   []int
+	fin  chan struct{}
+	used bool
+}
+
+// c06remover calls the removal closures; its name is looked for in goroutine dumps.
+func c06remover(w *world, hs []int, cs *concState, fin chan struct{}) {
+	defer close(fin)
+	for _, h := range hs {
+		if h >= 0 && h < len(w.removes) {
+			w.removes[h]()
+		}
+	}
+	atomic.StoreInt32(&cs.done, 1)
+}
+
+// removerBlocked reports whether the remover goroutine is parked on a lock.
+func removerBlocked() bool {
+	buf := make([]byte, 1<<16)
+	n := runtime.Stack(buf, true)
+	for _, g := range strings.Split(string(buf[:n]), "\n\n") {
+		if !strings.Contains(g, "main.c06remover") {
+			continue
+		}
+		head := g
+		if i := strings.IndexByte(g, '\n'); i >= 0 {
+			head = g[:i]
+		}
+		return strings.Contains(head, "sync.RWMutex.Lock") || strings.Contains(head, "sync.Mutex.Lock") || strings.Contains(head, "semacquire")
+	}
+	return false
+}
+
+func (t *trigger) Update(interface{}) {
+	if t.used {
+		return
+	}
+	t.used = true
+	cs := t.w.conc
+	cs.trig = true
+	go c06remover(t.w, t.hs, cs, t.fin)
+	// Wait until the removals have returned, or the remover is seen parked on
+	// the lock, or (load) 3 s have passed.  Load can only hide a defect.
+	deadline := time.Now().Add(3 * time.Second)
+	for i := 0; time.Now().Before(deadline); i++ {
+		if atomic.LoadInt32(&cs.done) == 1 {
+			break
+		}
+		if i%4 == 3 && removerBlocked() {
+			break
+		}
+		time.Sleep(200 * time.Microsecond)
+	}
+	cs.early = atomic.LoadInt32(&cs.done) == 1
+}
+
 type world struct {
+	conc    *concState
 	srv     *subscribe.Server
 	m       *match.Match
 	clients [maxClients]*subscribe.VerifC06Client
 	removes []func()
+	hclient []int // client of each handle
 	subs    []*subInfo // by handle; nil for AddQuery handles
 }
 
@@ -163,6 +272,7 @@ func (w *world) apply(o Op) (res Obs) {
 	case "add":
 		w.removes = append(w.removes, w.m.AddQuery(cp(o.P), w.clients[o.C%maxClients].MatchClient()))
 		w.subs = append(w.subs, nil)
+		w.hclient = append(w.hclient, o.C%maxClients)
 		return Obs{Kind: "done"}
 	case "sub":
 		sl := &pb.SubscriptionList{Prefix: o.Pre.pb(), Mode: pb.SubscriptionList_STREAM}
@@ -171,6 +281,7 @@ func (w *world) apply(o Op) (res Obs) {
 		}
 		w.removes = append(w.removes, subscribe.VerifC06AddSubscription(w.srv, sl, w.clients[o.C%maxClients]))
 		w.subs = append(w.subs, &subInfo{client: o.C % maxClients, list: sl, live: true})
+		w.hclient = append(w.hclient, o.C%maxClients)
 		return Obs{Kind: "done"}
 	case "rem":
 		if o.H >= 0 && o.H < len(w.removes) {
@@ -209,6 +320,40 @@ func (w *world) apply(o Op) (res Obs) {
 		return Obs{Kind: "notif", Offers: offers, Hits: w.hits(n)}
 	case "nodes":
 		return Obs{Kind: "nodes", N: match.VerifC06Nodes(w.m)}
+	case "conc":
+		cs := &concState{}
+		for _, h := range o.Hs {
+			if h >= 0 && h < len(w.hclient) {
+				cs.vict[w.hclient[h]] = true
+			}
+		}
+		w.conc = cs
+		defer func() { w.conc = nil }()
+		tr := &trigger{w: w, hs: o.Hs, fin: make(chan struct{})}
+		rmTrig := w.m.AddQuery(cp(o.Tq), tr)
+		tok := new(int)
+		if o.Once {
+			w.m.UpdateOnce(tok, cp(o.P), map[match.Client]struct{}{})
+		} else {
+			w.m.Update(tok, cp(o.P))
+		}
+		if cs.trig {
+			select {
+			case <-tr.fin:
+			case <-time.After(15 * time.Second):
+				panic("removal closures did not return after the update returned")
+			}
+		} else {
+			c06remover(w, o.Hs, cs, tr.fin)
+		}
+		for _, h := range o.Hs {
+			if h >= 0 && h < len(w.subs) && w.subs[h] != nil {
+				w.subs[h].live = false
+			}
+		}
+		rmTrig()
+		sort.Ints(cs.late)
+		return Obs{Kind: "conc", Offers: w.drain(tok), Trig: cs.trig, Early: cs.early, Late: cs.late}
 	}
 	panic("unknown op " + o.K)
 }
@@ -267,6 +412,7 @@ func run(ops []Op) []Obs {
 	done := make(chan []Obs, 1)
 	go func() {
 		w := newWorld()
+		curWorld.Store(w)
 		out := make([]Obs, len(ops))
 		for i, o := range ops {
 			out[i] = w.apply(o)
@@ -348,6 +494,15 @@ func opTerm(n *vh.Names, o Op) string {
 		return fmt.Sprintf("ONotif %s %s %s", optGp(n, o.Pre), optGps(n, o.Ups), optGps(n, o.Dels))
 	case "nodes":
 		return "ONodes"
+	case "conc":
+		hs := make([]string, len(o.Hs))
+		for i, h := range o.Hs {
+			if h < 0 {
+				h = 1 << 20
+			}
+			hs[i] = vh.Nat(h)
+		}
+		return fmt.Sprintf("OConc %s %s %s %s", vh.Bool(o.Once), n.Path(o.Tq), vh.List(hs), n.Path(o.P))
 	}
 	panic("opTerm")
 }
@@ -374,6 +529,12 @@ func obsTerm(r Obs) string {
 		return fmt.Sprintf("RNotif %s %s", offersTerm(r.Offers), vh.List(el))
 	case "nodes":
 		return "RNodes " + vh.Nat(r.N)
+	case "conc":
+		el := make([]string, len(r.Late))
+		for i, h := range r.Late {
+			el[i] = vh.Nat(h)
+		}
+		return fmt.Sprintf("RConc %s %s %s %s", offersTerm(r.Offers), vh.Bool(r.Trig), vh.Bool(r.Early), vh.List(el))
 	case "panic":
 		return "RPanic"
 	}
@@ -493,6 +654,34 @@ func randSub(r *vh.Rand, c int, known *[][]string) Op {
 	}
 	n := 1 + r.Pick(4, 4, 2)
 	o := Op{K: "sub", C: c, Pre: pre}
+	// Names containing separator-like bytes: one element "a/b" is not the two
+	// elements a, b.  A joined spelling and its split spelling in one list, in
+	// either order, each possibly extended or cut.
+	if r.Chance(1, 6) {
+		sep := []string{"/", "/", ",", ".", " ", "|", "//"}[r.Intn(7)]
+		parts := []string{"a", "b", "c"}[:2+r.Intn(2)]
+		cut := 1 + r.Intn(len(parts))
+		joined := append([]string{strings.Join(parts[:cut], sep)}, parts[cut:]...)
+		if r.Chance(1, 3) {
+			joined[0] += sep // trailing separator inside the name
+		}
+		split := cp(parts)
+		if r.Chance(1, 2) {
+			split = append(split, randNames(r, 1, 1)...)
+		}
+		if r.Chance(1, 3) && len(joined) > 1 {
+			joined = joined[:len(joined)-1]
+		}
+		pair := [][]string{joined, split}
+		if r.Chance(1, 2) {
+			pair[0], pair[1] = pair[1], pair[0]
+		}
+		for _, ns := range pair {
+			o.Ents = append(o.Ents, names(ns...))
+			*known = append(*known, ns)
+		}
+		n--
+	}
 	for i := 0; i < n; i++ {
 		if r.Chance(1, 10) {
 			o.Ents = append(o.Ents, nil)
@@ -646,6 +835,66 @@ func randSubSeq(r *vh.Rand) []Op {
 	return ops
 }
 
+// concurrent family: several clients on the same or overlapping paths, then
+// an update during which a trigger's callback has some of them removed, then
+// updates that must not reach the removed ones.
+func randConcSeq(r *vh.Rand) []Op {
+	var ops []Op
+	base := append([]string{randTarget(r)}, randNames(r, 2, 1)...)
+	if len(base) == 1 {
+		base = append(base, "a")
+	}
+	nv := 2 + r.Intn(6)
+	var known [][]string
+	for i := 0; i < nv; i++ {
+		q := cp(base)
+		if r.Chance(1, 3) {
+			q = mutate(r, base)
+		}
+		ops = append(ops, Op{K: "add", C: i % maxClients, P: q})
+		known = append(known, q)
+	}
+	nsub := 0
+	if r.Chance(1, 3) {
+		var sk [][]string
+		ops = append(ops, randSub(r, 7, &sk))
+		nsub = 1
+	}
+	handles := nv + nsub
+	p := append(cp(base), randNames(r, 1, 1)...)
+	if r.Chance(1, 4) {
+		p = mutate(r, base)
+	}
+	tq := cp(base)
+	if r.Chance(1, 5) {
+		tq = mutate(r, base)
+	}
+	var hs []int
+	for h := 0; h < handles; h++ {
+		if r.Chance(3, 4) {
+			hs = append(hs, h)
+		}
+	}
+	if r.Chance(1, 10) {
+		hs = append(hs, hs...) // closures called twice
+	}
+	ops = append(ops, Op{K: "conc", Once: r.Chance(1, 2), Tq: tq, Hs: hs, P: p})
+	ops = append(ops, Op{K: "upd", P: p}, Op{K: "once", Ps: [][]string{p, base}})
+	if r.Chance(1, 2) {
+		// a second round on what is left
+		var hs2 []int
+		for h := 0; h < handles; h++ {
+			if r.Chance(1, 2) {
+				hs2 = append(hs2, h)
+			}
+		}
+		ops = append(ops, Op{K: "conc", Once: r.Chance(1, 2), Tq: mutate(r, base), Hs: hs2, P: mutate(r, p)})
+		ops = append(ops, Op{K: "upd", P: p})
+	}
+	ops = append(ops, Op{K: "nodes"})
+	return ops
+}
+
 func nontrivial(c Case) bool {
 	reg, hit := false, false
 	for i, o := range c.Ops {
@@ -682,6 +931,19 @@ func (e *emitter) add(family string, ops []Op) {
 		switch r.Kind {
 		case "panic":
 			e.meta.Hist("panic")
+		case "conc":
+			if r.Trig {
+				e.meta.Hist("conc:trigger-called")
+			} else {
+				e.meta.Hist("conc:trigger-not-matched")
+			}
+			if r.Early {
+				e.meta.Hist("conc:removals-returned-during-update")
+			}
+			if len(r.Late) > 0 {
+				e.meta.Hist("conc:client-called-after-removal-returned")
+			}
+			fallthrough
 		case "offers", "notif":
 			if len(r.Offers) == 0 {
 				e.meta.Hist("update:no-client")
@@ -754,7 +1016,8 @@ func main() {
 	flag.Set("logtostderr", "true")
 	flag.Set("stderrthreshold", "FATAL")
 	o := vh.ParseFlags()
-	meta := vh.NewMeta("corpus cases; pairs-1: for every query path q of length 0..4 over {a,b,*} one case registering q and matching EVERY update path of length 0..4 over {a,b,*} against it (Update and UpdateOnce), then removal and the same updates again; pairs-2: two queries (same or different client) of length 0..3 against every update path of length 0..3 (quick: a seeded slice; thorough: all); sub: seeded subscribe-level sequences (1..3 subscription lists with 1..3 entries incl. entries without path, origins, keyed elements, deprecated element paths; notifications with 1..3 updates/deletes through Server.Update before and after removal); seq: seeded sequences of 4..30 operations mixing AddQuery (clients 0..2) / addSubscription (clients 3..7, one list each) / removal (repeated) / Update / UpdateOnce / Server.Update / trie size. distinct = distinct operation sequence; non-trivial = at least one registration and at least one update that was offered to some client")
+	coalesce.VerifHook = queueHook
+	meta := vh.NewMeta("corpus cases; pairs-1: for every query path q of length 0..4 over {a,b,*} one case registering q and matching EVERY update path of length 0..4 over {a,b,*} against it (Update and UpdateOnce), then removal and the same updates again; pairs-2: two queries (same or different client) of length 0..3 against every update path of length 0..3 (quick: a seeded slice; thorough: all); sub: seeded subscribe-level sequences (1..3 subscription lists with 1..4 entries incl. entries without path, one list in six holding a name with a separator-like byte (/ , . space |) together with the same text split into separate elements, in either order, origins, keyed elements, deprecated element paths; notifications with 1..3 updates/deletes through Server.Update before and after removal); conc: seeded concurrent cases: 2..7 clients on the same or overlapping paths (AddQuery, sometimes a subscription list), then Update/UpdateOnce during which a trigger client's callback -- running inside the matcher's call -- starts a goroutine calling the removal closures of a random subset (also twice), observing whether they return before the callback does (goroutine dump shows the remover parked on the lock, else bounded wait) and which of the clients being removed are first called after the removals returned, then updates that must not reach the removed clients; seq: seeded sequences of 4..30 operations mixing AddQuery (clients 0..2) / addSubscription (clients 3..7, one list each) / removal (repeated) / Update / UpdateOnce / Server.Update / trie size. distinct = distinct operation sequence; non-trivial = at least one registration and at least one update that was offered to some client")
 	meta.Samples = []interface{}{} // never null in meta.json
 	e := &emitter{dir: o.Out, cf: vh.NewCaseFile(), meta: meta, limit: 1500}
 
@@ -847,6 +1110,14 @@ func main() {
 	rs := r.Fork()
 	for i := 0; i < nsub; i++ {
 		e.add("sub", randSubSeq(rs.Fork()))
+	}
+	nconc := 400
+	if o.Thorough() {
+		nconc = 4000
+	}
+	rc := r.Fork()
+	for i := 0; i < nconc; i++ {
+		e.add("conc", randConcSeq(rc.Fork()))
 	}
 	rq := r.Fork()
 	for i := 0; i < nseq; i++ {
